@@ -213,7 +213,8 @@ def gen_pair(seed, i):
         w = np.linalg.eigvalsh(Ko)
         return bool(w.min() > 1e-7 * w.max())
     determinate = (rr == nrb and nif_nodes == 1) or (dim == 1 and rr == 1)
-    return dict(i=i, dim=dim, r=rr, damp=damp, iface=iface, noq=noq,
+    us = 1.0
+    return dict(i=i, dim=dim, r=rr, damp=damp, iface=iface, noq=noq, unit_scale=us,
                 S=(Ms, Bs, Ks), L=(Ml, Bl, Kl), bs=bs, bl=bl, pos_s=ps, pos_l=pl,
                 fsrc=fsrc, fload=fload, nrb=nrb, determinate=determinate,
                 alpha_s=als, alpha_l=all_,
@@ -294,6 +295,19 @@ def make_form(np, nt, r, form, M, B, K, b, cb_ok, alpha=None, determinate=False)
         Bcb[:, :rr] = 0.0
     if alpha is not None:
         Bcb = alpha * Kcb
+    # normalisation of the fixed-interface modes: y_q = cq * y_q' (unit modal mass is a
+    # convention, not part of the CB form).  With cq = 1e-3 the modal stiffness of a
+    # 10 Hz mode is 4e-3: absolute thresholds (rigid-body auto-detection |k| < 0.005)
+    # must not start to matter.
+    cq = [1.0, 1.0, 1e-3, 1e-2, 1.0, 30.0][int(r.integers(6))]
+    if form != "cb-pv":
+        cq = 1.0     # (recovery-matrix form: eigensolution of the whole matrices; a badly
+        #              scaled q-block there is an ill-conditioned input, not a unit choice)
+    if nq and cq != 1.0:
+        Dq = np.ones(n)
+        Dq[rr:] = cq
+        Mcb, Bcb, Kcb = (X * np.outer(Dq, Dq) for X in (Mcb, Bcb, Kcb))
+        Tcb = Tcb * Dq[None, :]
     # layout of the b-set inside the CB matrices and its order in the partition vector
     lay = int(r.integers(3))
     if lay == 0:
@@ -318,8 +332,11 @@ def make_form(np, nt, r, form, M, B, K, b, cb_ok, alpha=None, determinate=False)
         pv = where.copy()
         if rr == 1 and r.random() < 0.5:
             pv = int(pv[0])
+        # cbtf solves on the q-set only: eigensolver-type (norm-wise) backward error is
+        # relative to that block, element-wise everywhere else
         return dict(arg=[Mp, Bp, Kp, pv], mats=(Mp, Bp, Kp), T=T, tf=tf, form=form,
-                    sel=where, lay=lay, unsorted=bool(np.any(np.diff(where) < 0)))
+                    sel=where, lay=lay, unsorted=bool(np.any(np.diff(where) < 0)),
+                    pert_blocks=[rest.copy()], cq=cq)
     return dict(arg=[Mp, Bp, Kp, T], mats=(Mp, Bp, Kp), T=T, tf=tf, form=form, sel=where)
 
 
@@ -443,8 +460,9 @@ class PairRef:
         sL = np.zeros((r, nf, r))
         rp = core.rng(*rkey)
         ns, nl = S[0].shape[0], L[0].shape[0]
-        copies = [(_perturbed(np, O, rp, S, [np.arange(ns)]),
-                   _perturbed(np, O, rp, L, [np.arange(nl)])) for _ in range(3)]
+        copies = [(_perturbed(np, O, rp, S, fs_.get("pert_blocks", [np.arange(ns)])),
+                   _perturbed(np, O, rp, L, fl_.get("pert_blocks", [np.arange(nl)])))
+                  for _ in range(3)]
         with np.errstate(all="ignore"):
             for j, Wj in enumerate(W):
                 f = fpass[:, j]
@@ -601,7 +619,8 @@ class Routes:
 
 
 def _tags(p, fs_, fl_):
-    return {"dim": p["dim"], "r": p["r"], "damp": p["damp"], "src_form": fs_["form"],
+    return {"dim": p["dim"], "r": p["r"], "damp": p["damp"], "unit_scale": p["unit_scale"],
+            "src_form": fs_["form"],
             "load_form": fl_["form"], "noq": bool(p["noq"]),
             "determinate": bool(p["determinate"]),
             "src_unsorted_bset": bool(fs_.get("unsorted", False)),
@@ -799,6 +818,39 @@ def run_pair(sh, np, nt, O, frclim, routes, i):
             close3("calcAM-drm-vs-inv-accelerance", am_dr, want, tdr)
             sh.count("cell:both-routes-same-model")
 
+    # ---- history: the answer depends on the VALUES handed over, not on object identity ---
+    # (a model updated in place between two calls must be solved as it is now)
+    if i % 2 == 1:
+        for f, name in ((fs_, "src"), (fl_, "load")):
+            if f["form"] in ("am-array",):
+                continue
+            args = arg_of(f)
+            try:
+                with warnings.catch_warnings():
+                    warnings.simplefilter("ignore")
+                    with np.errstate(all="ignore"):
+                        am0 = np.array(frclim.calcAM(args, freq.copy()), copy=True)
+                        kk = args[2]
+                        kk *= 1.25                       # stiffness updated in place
+                        if args[1] is not None and not np.isscalar(args[1]):
+                            args[1] *= 0.5               # damping too
+                        am1 = np.array(frclim.calcAM(args, freq.copy()), copy=True)
+                        fresh = [x if (x is None or np.isscalar(x)) else np.array(x)
+                                 for x in args]
+                        am2 = np.asarray(frclim.calcAM(fresh, freq.copy()))
+            except Exception as e:
+                sh.violation("exception:calcAM-history", case, {"exc": repr(e)[:400]}, tags)
+                continue
+            sh.count("mon:calcAM-inplace-update")
+            if am1.shape != am2.shape or am1.tobytes() != am2.tobytes():
+                sh.violation("calcAM-inplace-update", case,
+                             {"which": name, "form": f["form"],
+                              "maxdiff": float(np.abs(am1 - am2).max()),
+                              "same_as_before_update": bool(am1.tobytes() == am0.tobytes())},
+                             tags)
+            elif am1.tobytes() != am0.tobytes():
+                sh.count("cell:calcAM-inplace-update-changed-answer")
+
     # ---- low-frequency limit: AM -> RB^T M RB for a statically determinate interface ----
     if p["determinate"]:
         from vf.oracles import nt_coupled
@@ -850,7 +902,7 @@ def run_shard(sh, params):
         routes.restore()
 
 
-MANDATORY_MON = ["A-vs-coupled", "F-vs-coupled", "SAM-vs-inv-accelerance",
+MANDATORY_MON = ["calcAM-inplace-update", "A-vs-coupled", "F-vs-coupled", "SAM-vs-inv-accelerance",
                  "LAM-vs-inv-accelerance", "TAM-eq-SAM-plus-LAM", "R-ratio",
                  "calcAM-pv-vs-inv-accelerance", "calcAM-drm-vs-inv-accelerance",
                  "AM-lowfreq-vs-rigid-mass"]
